@@ -27,6 +27,9 @@ uint64_t nondet_uint64_t(void) { return 0; } float nondet_float(void) { return 0
 unsigned __int128 nondet_unsigned___int128(void) { return 0; }
 #endif
 
+/* fill n bytes with logged symbolic data (a runtime-model loop: its bound is rt_unwind, independent of the harness' --unwind) */
+void X_vp_fill_n(uint8_t* p, uint64_t n) { for (uint64_t i = 0; i < n; i++) p[i] = X_vp_nondet_u8(); }
+
 /* concrete shape parameters of the query (cbmc -DVP_PARAMS=a,b,c; natively from the replay file) */
 #ifdef __CPROVER__
 #ifndef VP_PARAMS
